@@ -3,7 +3,7 @@ From Coq Require Import List NArith ZArith Bool.
 Import ListNotations.
 From Verif Require Import Base.Val C18.Fs C18.FsLemmas C18.Model_C18 C18.Spec_C18 C18.Proofs_C18.
 From Verif Require Import C18.Exact_C18.
-From Verif Require Import C19.Model_C19 C19.Spec_C19 C19.Proofs_C19 C19.Crash_C19.
+From Verif Require Import C19.Model_C19 C19.Spec_C19 C19.Proofs_C19 C19.Crash_C19 C19.Whole_C19.
 
 (* crash_frame: at EVERY crash point of the merge, a path the merge never names (and whose
    inode it never writes) holds its old node *)
@@ -83,3 +83,17 @@ Theorem crash_atomic_steps : forall i sf k,
     (forall y, In y P -> exists n, lookup sb (e_loc y) = Some n /\ installed (i_fs i) y n).
 Proof. exact crash_atomic_steps_proof. Qed.
 Print Assumptions crash_atomic_steps.
+
+(* crash_atomic for the WHOLE merge (closed statement): on the NoAlias domain, at EVERY crash
+   prefix k every path that existed before the merge holds its complete pre-merge node or its
+   complete final node.  The one allowed exception, stated explicitly, is dir_metadata_two_step:
+   a directory that existed before, caught between lchown and utime - still a directory with
+   its old mode and old mtime, owner possibly already the new one. *)
+Theorem crash_atomic_whole : forall i sf k p,
+  noalias i = true -> merge_err i = None -> run_opt (merge_ops i) (i_fs i) = Some sf ->
+  lookup (i_fs i) p <> None ->
+  let st := crash_state (merge_ops i) (i_fs i) k in
+  lookup st p = lookup (i_fs i) p \/ lookup st p = lookup sf p \/
+  (exists m u g t u' g', lookup (i_fs i) p = Some (Dir m u g t) /\ lookup st p = Some (Dir m u' g' t)).
+Proof. exact crash_atomic_whole_proof. Qed.
+Print Assumptions crash_atomic_whole.
